@@ -100,3 +100,43 @@ def spec_upsample(x, oshape, factors, shift=None):
                 src.append(k[d])
         return LF._ite(SymBool(z3.And(*conds)), snap(tuple(src)), 0)
     return SArr(tuple(oshape), el, x.dtype)
+
+
+def num_blks(N, B, St):
+    return [(S(n) - b + s) // s for n, b, s in zip(N, B, St)]
+
+
+def spec_array_to_blocks(x, blk_shape, blk_strides):
+    """out[batch.., n.., b..] = in[batch.., n*S + b], one block per stride multiple"""
+    D = len(blk_shape)
+    nb = num_blks(x.shape[-D:], blk_shape, blk_strides)
+    batch = list(x.shape[:-D])
+    nbt = len(batch)
+    snap = x._snapshot()
+
+    def el(k):
+        kb, kn, kk = k[:nbt], k[nbt:nbt + D], k[nbt + D:]
+        return snap(tuple(kb) + tuple(z3.simplify(kn[d] * _lift(blk_strides[d]) + kk[d]) for d in range(D)))
+    return SArr(tuple(batch + nb + list(blk_shape)), el, x.dtype)
+
+
+def spec_blocks_to_array(x, oshape, blk_shape, blk_strides):
+    """out[batch.., i..] = sum over (n, b) with n*S + b = i of in[batch.., n.., b..]"""
+    D = len(blk_shape)
+    nbt = len(oshape) - D
+    nb = x.shape[nbt:nbt + D]
+    snap = x._snapshot()
+
+    def el(k):
+        kb, ki = k[:nbt], k[nbt:]
+        binders, guards, ns, bs = [], [], [], []
+        for d in range(D):
+            n, b = core.fresh_int("n"), core.fresh_int("b")
+            bn, bb = snp.Binder(n, 0, nb[d]), snp.Binder(b, 0, blk_shape[d])
+            binders += [bn, bb]
+            guards += [bn.range_cond(), bb.range_cond(), n * _lift(blk_strides[d]) + b == ki[d]]
+            ns.append(n)
+            bs.append(b)
+        v = snap(tuple(kb) + tuple(ns) + tuple(bs))
+        return LF(snp.C0, [snp.Term(tuple(binders) + t.binders, tuple(guards) + t.guard, t.coef, t.atom, t.idx, t.conj) for t in v.terms])
+    return SArr(tuple(oshape), el, x.dtype)
